@@ -254,9 +254,17 @@ def run_case(desc):
         make = st.TouchFileStore
     tmp = tempfile.mkdtemp(prefix="vmon-c12-")
     bad = None
+    old_cwd = None
+    bare = False
     try:
         base = os.path.join(tmp, "value.dat")
         path = base if pathkind == "str" else pathlib.Path(base)
+        if mount == "direct" and desc["seed"] % 9 == 0:
+            # a bare file name, relative to the working directory (no directory part at all): JsonFileStore("out.json")
+            old_cwd = os.getcwd()
+            os.chdir(tmp)
+            path = "value.dat" if pathkind == "str" else pathlib.Path("value.dat")
+            bare = True
         if mount == "direct":
             store = make(path)
         elif mount == "testmount":
@@ -456,8 +464,10 @@ def run_case(desc):
 
         bad = f"{type(e).__name__} during write/read of an in-domain value: {e!r} :: {traceback.format_exc()[-400:]}"
     finally:
+        if old_cwd is not None:
+            os.chdir(old_cwd)
         shutil.rmtree(tmp, ignore_errors=True)
-    feats = [kind, mount, pathkind, f"enc:{enc}"]
+    feats = [kind, mount, pathkind, f"enc:{enc}"] + (["bare-relative-path"] if bare else [])
     nontrivial = False
     mech = "roundtrip"
     if isinstance(value, str):
